@@ -65,6 +65,16 @@ type CaseB struct {
 	Src    string   `json:"src"`
 	Edits  []Edit   `json:"edits"`
 	Feat   []string `json:"feat,omitempty"`
+	// Reuse: what the caller does with the []byte it passed to the parsers, once, before
+	// edit number ReuseAt (modulo #edits+1; #edits = after the last edit, before the
+	// final serialisation); Over is the caller's next source
+	Reuse   string `json:"reuse,omitempty"`
+	ReuseAt int    `json:"reuse_at,omitempty"`
+	Over    string `json:"over,omitempty"`
+	// MutateArgs: after SetAttributeRaw / SetAttributeTraversal / AppendNewBlock /
+	// SetLabels returned, the caller overwrites the elements of the Tokens, Traversal and
+	// label slices it passed
+	MutateArgs bool `json:"mutate_args,omitempty"`
 }
 
 var rawExprs = []string{"1 + 2", "foo(bar, 1)", "[1, 2, x]", "a.b[0]", "\"s-${v}\"", "!x", "{ k = 1 }", "c ? 1 : 2"}
@@ -149,6 +159,14 @@ func genB(t *rapid.T) CaseB {
 	for i := 0; i < n; i++ {
 		c.Edits = append(c.Edits, genEdit(t))
 	}
+	c.Reuse = genReuse(t)
+	if c.Reuse != reuseNone {
+		c.ReuseAt = rapid.IntRange(0, n).Draw(t, "reuse-at")
+	}
+	if c.Reuse == reuseOther || c.Reuse == reuseNext {
+		c.Over, _, _ = genSource(t)
+	}
+	c.MutateArgs = rapid.Bool().Draw(t, "caller-mutates-arguments")
 	return c
 }
 
@@ -206,6 +224,8 @@ type model struct {
 
 	lastRemoved   string
 	lastRemovedIn *mBody
+
+	mutateArgs bool // the caller overwrites the slices it passed to the write API
 }
 
 func tokIndexAt(toks []tk, off int) int {
@@ -445,12 +465,25 @@ func (md *model) apply(e *Edit, wroot *hclwrite.Body, ap *applied) {
 				ap.nonPrint = true
 			}
 		}
-		wb.SetAttributeTraversal(name, tr)
+		arg := append(hcl.Traversal(nil), tr...)
+		wb.SetAttributeTraversal(name, arg)
+		if md.mutateArgs {
+			for i := range arg {
+				arg[i] = hcl.TraverseAttr{Name: "caller_reused_this_slot"}
+			}
+		}
 		setAttr(name, it, &mAttr{kind: "traversal", trav: tr})
 	case "set-raw":
 		name, it := pickName()
 		ts, wt := rawTokens(e.Raw)
 		wb.SetAttributeRaw(name, wt)
+		if md.mutateArgs {
+			// the slice is the caller's; the *Token values it pointed to are left alone
+			// (the file shares those by design: NewExpressionRaw copies the slice only)
+			for i := range wt {
+				wt[i] = &hclwrite.Token{Type: hclsyntax.TokenIdent, Bytes: []byte("caller_reused_this_slot")}
+			}
+		}
 		setAttr(name, it, &mAttr{kind: "raw", raw: ts})
 	case "remove-attr":
 		as := mb.attrs()
@@ -502,7 +535,13 @@ func (md *model) apply(e *Edit, wroot *hclwrite.Body, ap *applied) {
 				ap.nonPrint = true
 			}
 		}
-		wb.AppendNewBlock(e.BType, e.Labels)
+		arg := append([]string(nil), e.Labels...)
+		wb.AppendNewBlock(e.BType, arg)
+		if md.mutateArgs {
+			for i := range arg {
+				arg[i] = "caller reused this slot"
+			}
+		}
 		if mb.unterminated != "" && ap.appendOpen == "" {
 			ap.appendOpen = mb.unterminated
 		}
@@ -536,7 +575,13 @@ func (md *model) apply(e *Edit, wroot *hclwrite.Body, ap *applied) {
 				ap.nonPrint = true
 			}
 		}
-		wbl[e.Block%len(wbl)].SetLabels(e.Labels)
+		arg := append([]string(nil), e.Labels...)
+		wbl[e.Block%len(wbl)].SetLabels(arg)
+		if md.mutateArgs {
+			for i := range arg {
+				arg[i] = "caller reused this slot"
+			}
+		}
 		if it.b.header != nil && it.b.labelHi > it.b.labelLo {
 			md.removed = append(md.removed, region{it.b.labelLo, it.b.labelHi})
 		}
@@ -696,7 +741,10 @@ func checkB(c CaseB) *core.Violation {
 }
 
 func checkB1(c CaseB, k *keeper) *core.Violation {
-	src := []byte(c.Src)
+	// the caller's buffer; the model is built from the scanner's tokens (string copies)
+	// before the buffer is used again
+	cb := newCallerBuf(c.Reuse, c.Src, c.Over, reuseFallbackConfig)
+	src := cb.b
 	parsed, pd := hclsyntax.ParseConfig(src, "", startPos)
 	if pd.HasErrors() {
 		return nil
@@ -717,7 +765,23 @@ func checkB1(c CaseB, k *keeper) *core.Violation {
 			return nil
 		}
 	}
-	md := &model{root: buildBody(src, toks, parsed.Body.(*hclsyntax.Body), 0, false)}
+	md := &model{root: buildBody(src, toks, parsed.Body.(*hclsyntax.Body), 0, false), mutateArgs: c.MutateArgs}
+	src, parsed = nil, nil
+	reuseAt := c.ReuseAt % (len(c.Edits) + 1)
+	if reuseAt < 0 {
+		reuseAt = 0
+	}
+	reuseNow := func(i int) {
+		if i != reuseAt {
+			return
+		}
+		cb.reuse(func(next []byte) {
+			// the caller loads its next file through the same buffer
+			if nf, _ := hclwrite.ParseConfig(next, "", startPos); nf != nil {
+				k.keep("Tokens.Bytes", nf.BuildTokens(nil).Bytes())
+			}
+		})
+	}
 	// the root body is "open" when the file does not end with a line end
 	last := -1
 	for i := len(toks) - 1; i >= 0; i-- {
@@ -732,6 +796,7 @@ func checkB1(c CaseB, k *keeper) *core.Violation {
 
 	ap := &applied{ops: map[string]bool{}}
 	for i := range c.Edits {
+		reuseNow(i)
 		md.apply(&c.Edits[i], f.Body(), ap)
 		// the file is serialised after every edit, through alternating entry points,
 		// and every result is retained (File.Bytes formats the tree in place, which
@@ -746,9 +811,10 @@ func checkB1(c CaseB, k *keeper) *core.Violation {
 		}
 	}
 	core.SetExtra("c20b_cases_removing_first_item_behind_brace_comment_run", atomic.LoadInt64(&removedBehindBraceRun))
+	reuseNow(len(c.Edits))
 	out := k.keep("File.Bytes", f.Bytes())
 	// one more serialisation of different content before the output is looked at
-	k.keep("Format", hclwrite.Format(src))
+	k.keep("Format", hclwrite.Format([]byte(c.Src)))
 	show := func() string {
 		return fmt.Sprintf("edits: %s\noutput:\n%s\nsource:\n%s", clip(fmt.Sprintf("%+v", c.Edits), 1500), clip(string(out), 2500), clip(c.Src, 2500))
 	}
@@ -867,6 +933,36 @@ func classifyB(c CaseB) core.Class {
 			cl.Labels = append(cl.Labels, "edit:remove-first-item-in-file-with-brace-comment-run")
 		}
 	}
+	cl.Labels = append(cl.Labels, reuseLabel(c.Reuse))
+	if c.Reuse != reuseNone {
+		at := c.ReuseAt % (len(c.Edits) + 1)
+		switch {
+		case at <= 0:
+			cl.Labels = append(cl.Labels, "input:buffer-reused-before-first-edit")
+		case at == len(c.Edits):
+			cl.Labels = append(cl.Labels, "input:buffer-reused-after-last-edit")
+		default:
+			cl.Labels = append(cl.Labels, "input:buffer-reused-between-edits")
+		}
+	}
+	if c.MutateArgs {
+		mut := false
+		for _, e := range c.Edits {
+			switch e.Op {
+			case "set-raw", "set-traversal":
+				mut = true
+			case "append-block", "set-labels":
+				mut = mut || len(e.Labels) > 0
+			}
+		}
+		if mut {
+			cl.Labels = append(cl.Labels, "args:caller-overwrites-passed-slices-after-call")
+		} else {
+			cl.Labels = append(cl.Labels, "args:caller-would-overwrite(no-slice-argument-in-case)")
+		}
+	} else {
+		cl.Labels = append(cl.Labels, "args:left-alone")
+	}
 	cl.Labels = append(cl.Labels, fmt.Sprintf("nedits:%d", len(c.Edits)))
 	for i := range c.Edits {
 		cl.Labels = append(cl.Labels, "results:after-edit-via-"+[]string{"File.Bytes", "Tokens.Bytes", "Format+Body.BuildTokens", "none"}[(i+len(c.Src))%4])
@@ -887,7 +983,7 @@ func classifyB(c CaseB) core.Class {
 func TestC20b(t *testing.T) {
 	core.Run(t, core.Spec[CaseB]{
 		Property: "C20", Sub: "b",
-		Rule: "a generated source file (as in C20a) and 1-5 edits, each on the root body or a nested body reached through 0-2 block indices: SetAttributeValue (primitive/list/map/set/any values, arbitrary Unicode strings, numbers at and beyond the int64/uint64 boundaries, huge, tiny, non-terminating fractions, -0, also nested), SetAttributeTraversal (incl. such numbers as index keys), SetAttributeRaw, RemoveAttribute (existing or missing), AppendNewBlock (0-2 labels), RemoveBlock, removal of the first item of a body, SetLabels; the same edits update a model built from hclsyntax's parse. Oracle: the file is serialised after every edit through alternating entry points and every returned slice must stay what it was; the final File.Bytes() parses; every body shows the model's items in order; untouched attributes and block headers keep their tokens; set attributes read back as the value / traversal / tokens given; labels are the model's; comments outside removed or replaced regions are all still there in order and no comment appears. Non-trivial: heredoc, comment or template in the file, or >=2 edits; distinct = (origin, heredoc, comment, template, #edits<=3, first two op kinds)",
+		Rule: "a generated source file (as in C20a) and 1-5 edits, each on the root body or a nested body reached through 0-2 block indices: SetAttributeValue (primitive/list/map/set/any values, arbitrary Unicode strings, numbers at and beyond the int64/uint64 boundaries, huge, tiny, non-terminating fractions, -0, also nested), SetAttributeTraversal (incl. such numbers as index keys), SetAttributeRaw, RemoveAttribute (existing or missing), AppendNewBlock (0-2 labels), RemoveBlock, removal of the first item of a body, SetLabels; the same edits update a model built from hclsyntax's parse. Oracle: the file is serialised after every edit through alternating entry points and every returned slice must stay what it was; the final File.Bytes() parses; every body shows the model's items in order; untouched attributes and block headers keep their tokens; set attributes read back as the value / traversal / tokens given; labels are the model's; comments outside removed or replaced regions are all still there in order and no comment appears. Non-trivial: heredoc, comment or template in the file, or >=2 edits; distinct = (origin, heredoc, comment, template, #edits<=3, first two op kinds). In about half of the cases the caller reuses its input buffers (labels input:caller-reuses-buffer|fill-0xAA / other-source-bytes / next-source-parsed, the other half input:caller-leaves-buffer-alone): as soon as a parsing entry point has returned, the []byte that was passed to it is filled with 0xAA, or overwritten with the bytes of a different generated source of the same length, or truncated and the next source read into the same backing array and parsed; everything obtained from the call is used only after that and must be what it is in the other half (oracles work on a private copy of the text taken before the call). Here: the buffer given to hclwrite.ParseConfig, reused once at a generated point of the history (before the first edit, between two edits, or after the last edit and before the final serialisation; labels input:buffer-reused-*), in mode next-source-parsed a second generated file is loaded through the same backing array. In half of the cases (label args:caller-overwrites-passed-slices-after-call) the caller overwrites every element of the Tokens slice passed to SetAttributeRaw, of the Traversal passed to SetAttributeTraversal and of the label slices passed to AppendNewBlock / SetLabels right after the call returned; the file must keep what was passed at the time of the call (the *Token values the Tokens slice pointed to are not written: NewExpressionRaw copies the slice only and shares the tokens)",
 		Gen:  genB, Check: checkB, Classify: classifyB,
 		Assumptions: []string{
 			"hclsyntax's parse of the source and of the output is the trusted observer of structure",
